@@ -265,7 +265,7 @@ def main(argv=None):
         "outcome_histogram_top": sorted(outcomes.items(), key=lambda kv: -kv[1])[:12],
         "known_findings_hit": [{"key": s, "cases": n} for s, n, _ in known_hit],
         "violations_unlisted": [{"sig": s, "cases": n, "replay": p} for s, _, _, p, n in new_viol],
-        "slowest_case_s": round(slowest[0], 2),
+        "slowest_case_s": round(slowest[0], 2), "slowest_case": slowest[1],
         "workers": jobs,
     }
     if counters:
